@@ -1,9 +1,9 @@
 from engine.core import Job
 META = dict(
     level="other",
-    claim="Line bookkeeping mechanisms on the real tokenizer/preprocessor: add_line_numbers gives every token 1 + the number of newlines before it (all 8-byte buffers, 3 tokens at arbitrary positions); line splicing removes splices but keeps the number of newline characters, so later physical lines keep their numbers (all 7-byte buffers); the #line delta is checked against C11 6.10.4p3 (known finding: off by one).",
+    claim="Line bookkeeping mechanisms on the real tokenizer/preprocessor: add_line_numbers gives every token 1 + the number of newlines before it (all 8-byte buffers, 3 tokens at arbitrary positions); line splicing removes splices but keeps the number of newline characters, so later physical lines keep their numbers (all 7-byte buffers); __LINE__ inside a macro body is the invocation line in the invoking file with that file's delta; every expression/statement is preceded by the .loc record of its own token; the #line delta is checked against C11 6.10.4p3 (known finding: off by one).",
     note="Bounded buffers. Not covered: origin chasing of __LINE__/__FILE__ through macro expansion, diagnostics, .loc/.file records, tokens on continuation lines (they are numbered with the first line of their logical line). copy_line/preprocess are replaced by a contract in the #line obligation.",
-    functions=["tokenize.c:add_line_numbers", "tokenize.c:remove_backslash_newline", "preprocess.c:read_line_marker"],
+    functions=["preprocess.c:line_macro", "codegen.c:gen_expr", "codegen.c:gen_stmt", "tokenize.c:add_line_numbers", "tokenize.c:remove_backslash_newline", "preprocess.c:read_line_marker"],
     trusted_base=["CBMC 6.11"],
     assumptions=["copy_line + preprocess yield the directive's number token (contract)"],
     explanation="bounded symbolic harnesses on real line-bookkeeping functions",
@@ -13,8 +13,12 @@ def jobs(tier):
     return [
         Job(name="add_line_numbers", src="lines.c", group="C18.2 line numbering", mode="plain", cut=CUTD, cut_defined=CUTD, units=["unicode.c", "type.c"], unwind=12, timeout=300, replay=None,
             bounded="8-byte buffers, 3 tokens", sample="add_line_numbers on every 8-byte buffer over {a, newline}"),
-        Job(name="splice-newlines", src="../C11/inplace.c", group="C18.1 newline preservation", defs={"FN": "1", "ALPHABET": "'\"\\\\\\\\\\\\na\\\\r\"'", "NB": "7"}, mode="plain", cut=CUTD, cut_defined=CUTD,
-            units=["unicode.c", "type.c"], unwind=25, timeout=300, replay=None, bounded="7-byte buffers", sample="remove_backslash_newline keeps the newline count"),
+        Job(name="splice-newlines", src="../C11/inplace.c", group="C18.1 newline preservation", defs={"FN": "1", "ALPHABET": "'" + '"\\\\\\na"' + "'", "NB": "9"}, mode="plain", cut=CUTD, cut_defined=CUTD,
+            units=["unicode.c", "type.c"], unwind=30, timeout=600, replay=None, bounded="9-byte buffers", sample="remove_backslash_newline keeps the newline count"),
+        Job(name="line-macro", src="linemacro.c", group="C18.3 __LINE__ origin", mode="plain", cut=["error", "error_tok", "error_at", "warn_tok", "verror_at"], redirect={"new_num_token": "stub_new_num_token"},
+            units=[], timeout=300, unwind=5, replay=None, bounded="origin chains of length <= 2", sample="line_macro through 0..2 levels of macro expansion across two files with different #line deltas"),
+        Job(name="loc-records", src="locrec.c", group="C18.5 debug line records", mode="plain", cut=["error", "error_tok", "error_at", "warn_tok", "verror_at"], units=["type.c"], timeout=300, unwind=6, unwindset=["strcmp.0:40"], replay=None,
+            bounded="two consecutive nodes", sample="gen_expr then gen_stmt on nodes of two files with symbolic line numbers"),
         Job(name="line-marker", src="linemarker.c", group="C18.4 #line", mode="legacy", replace=["copy_line", "preprocess"], cut=["error", "error_tok", "error_at", "warn_tok", "verror_at"],
             units=[], timeout=300, unwind=4, replay=None, bounded="contract in place of the directive re-read", sample="#line N on physical line L, all L, N"),
     ]
